@@ -52,8 +52,22 @@ func (st *verifChan) addClient(id int64) *clientV2 {
 	return cl
 }
 
+// verifConcreteIDs: schedule-oriented harnesses use fixed, distinct ids (the races do not depend
+// on id values) so that the solver only sees deadlines, owners and counters.
+var verifConcreteIDs bool
+var verifIDSeq byte
+
 func verifMsg(tag string, bodyLen int) *Message {
 	m := &Message{}
+	if verifConcreteIDs {
+		verifIDSeq++
+		for i := range m.ID {
+			m.ID[i] = 'a' + verifIDSeq
+		}
+		m.Body = make([]byte, bodyLen)
+		m.Timestamp = verifrt.Int64(tag + ".ts")
+		return m
+	}
 	copy(m.ID[:], verifrt.BytesN(tag+".id", 16))
 	m.Body = verifrt.BytesN(tag+".body", bodyLen)
 	m.Timestamp = verifrt.Int64(tag + ".ts")
